@@ -10,6 +10,7 @@ from typing import Dict, Optional
 import duckdb
 
 from vtlengine.DataTypes import TimePeriod
+from vtlengine.Exceptions import RunTimeError
 from vtlengine.files.output._time_period_representation import (
     TimePeriodRepresentation,
     format_time_period_external_representation,
@@ -71,7 +72,16 @@ def apply_time_period_representation(
     macro = _REPR_MACRO[representation]
     set_clauses = ", ".join(f'"{col}" = {macro}("{col}")' for col in varchar_tp_cols)
     where_clauses = " OR ".join(f'"{col}" IS NOT NULL' for col in varchar_tp_cols)
-    conn.execute(f'UPDATE "{table_name}" SET {set_clauses} WHERE {where_clauses}')
+    try:
+        conn.execute(f'UPDATE "{table_name}" SET {set_clauses} WHERE {where_clauses}')
+    except duckdb.Error as e:
+        # vtl_period_to_sdmx_gregorian raises error('VTL Error 2-1-19-21: ... got <indicator>')
+        # for indicators the format cannot express (S, Q, W).
+        msg = str(e)
+        if "2-1-19-21" in msg:
+            period = msg.rsplit("got ", 1)[-1].strip().split()[0] if "got " in msg else "unknown"
+            raise RunTimeError("2-1-19-21", period=period) from e
+        raise
 
 
 def format_time_period_scalar(
